@@ -2132,7 +2132,13 @@ where
             }
             DedupPolicy::Epsilon { .. } => {
                 let epsilon = epsilon.expect("epsilon validated above");
-                let vertices = vertices.to_vec();
+                // The epsilon passes keep the first vertex they visit of a group of near-duplicates.
+                // With a value-based insertion order the result must not depend on how the caller
+                // listed the vertices, so visit them in the canonical (coordinates, UUID) order.
+                let vertices = match insertion_order {
+                    InsertionOrderStrategy::Input => vertices.to_vec(),
+                    _ => order_vertices_lexicographic(vertices.to_vec()),
+                };
                 if hash_grid_usable_for_vertices(&grid, &vertices) {
                     Some(dedup_vertices_epsilon_hash_grid(
                         vertices, epsilon, &mut grid,
